@@ -139,6 +139,12 @@ def check(an, rep, tier):
         for s in r.I.sites:
             if s.rule in ('G-div', 'G-log') and s.status == 'ok':
                 rep.ok(s.rule, s.where, s.construct, detail=s.detail)
+            if s.rule == 'K-empty':
+                # an emptiness test that cannot fire lets the mean of an empty
+                # selection (NaN) into the cores
+                rep.add('K-empty', s.where, s.construct, s.status, s.detail,
+                        line=getattr(s.node, 'lineno', None),
+                        file=s.mod.path if s.mod else None)
     # --- S-floor: rank floor in both truncated factorisations
     for q in ('svd.matrix_svd', 'svd.matrix_skeleton'):
         fn = prog.func(q)
